@@ -200,6 +200,12 @@ def pipe_matrix(run, scratch):
         ("max", ["-newsroom"], F.newsroom_file(2, 5, C.body_lin(10, 5, 3))),
         ("max", ["-newsroom", "-s", "2"], b"zz" + F.newsroom_file(2, 5, C.body_lin(10, 5, 3))),
         ("max", ["-w", "16", "-i"], F.max_file(C.body_lin(8, 5, 1))),
+        # every header variant of the formats that can come through a pipe
+        ("cm3", [], F.cm3_raw_file(pal, C.body_lin(192 * 160, 3, 1), False, True)),
+        ("cm3", [], F.cm3_raw_file(pal, C.body_lin(384 * 160, 5, 2), True, False)),
+        ("cm3", [], F.cm3_raw_file(pal, C.body_lin(384 * 160, 7, 3), True, True)),
+        ("mge", [], F.mge_raw_file(pal, C.body_lin(32000, 3, 1))),
+        ("mge", [], F.mge_raw_file(pal, C.body_lin(32000, 5, 2), rgb_flag=1)),
     ]
     env = dict(os.environ)
     env["PYTHONPATH"] = core.REPO
